@@ -9,22 +9,9 @@ open Minter
 
 def chomp (s : String) : String := String.ofList (s.toList.filter (fun c => c != '\n' && c != '\r'))
 
-def hexDigitChar (n : Nat) : Char := if n < 10 then Char.ofNat (48 + n) else Char.ofNat (87 + n)
+def toHexPad (n : Nat) (width : Nat) : String := hexPad n width
 
-def toHexPad (n : Nat) (width : Nat) : String :=
-  let rec go (fuel : Nat) (n : Nat) (acc : List Char) : List Char :=
-    match fuel with
-    | 0 => acc
-    | fuel + 1 => go fuel (n / 16) (hexDigitChar (n % 16) :: acc)
-  String.ofList (go width n [])
-
-def fnv64 (s : String) : UInt64 :=
-  s.toUTF8.foldl (fun h b => (h ^^^ b.toUInt64) * 1099511628211) 14695981039346656037
-
-def comDigest (c : List (String × Int)) : String :=
-  let sorted := sortBy (fun a b => a.1 < b.1) c
-  let txt := String.join (sorted.map (fun e => toString e.2 ++ ","))
-  toHexPad (fnv64 txt).toNat 16 |>.toList |>.dropWhile (· == '0') |> String.ofList
+def comDigest (c : List (String × Int)) : String := comDigestOf (c.map (fun e => (e.1, toString e.2)))
 
 structure LastTx where
   t : TxIn
@@ -202,6 +189,11 @@ def txMonitors (P : Params) (lt : LastTx) (chs : List Change) (dOld : Dump) (blo
           | ["b", a, cc] => natD cc == com && (a == payer || amountOf c.key c.new ≥ amountOf c.key c.old)
           | ["c", cc] => natD cc == com
           | ["p", c0, c1] => (natD c0 == com && natD c1 == 0) || (natD c0 == 0 && natD c1 == com)
+          | ["o", _] =>
+            -- a fee paid through the commission pool may fill limit orders of that pool (their owners are credited)
+            match words ((c.old.orElse (fun _ => c.new)).getD "") with
+            | c0 :: c1 :: _ => (natD c0 == com && natD c1 == 0) || (natD c0 == 0 && natD c1 == com)
+            | _ => false
           | ["app", "rewards"] => true
           | _ => false
         if !ok then out := s!"VIOL C03 rejected-tx-changed {c.key} {c.old.getD "-"}->{c.new.getD "-"} type={t.typ} code={lt.code}" :: out
@@ -209,63 +201,78 @@ def txMonitors (P : Params) (lt : LastTx) (chs : List Change) (dOld : Dump) (blo
 
 def fmtViol (v : Coin × Int × Int) : String := s!"coin={v.1} volume={v.2.1} holdings={v.2.2}"
 
-def primKeys : Prim → List String
+/-- Dump keys a primitive touches, read off the state `m` *after* the plan (indices of appended list entries). -/
+def primKeys (m : State) : Prim → List String
   | .addBal a c _ => [s!"b {toHexPad a 40} {c}"]
   | .addVolume c _ => [s!"c {c}"]
   | .addReserve c _ => [s!"c {c}"]
   | .setNonce a _ => [s!"n {toHexPad a 40}"]
-  | .createCoin ci => [s!"c {ci.id}"]
+  | .createCoin ci => [s!"c {ci.id}", "app ncoins"]
   | .addSlashed _ => ["app slashed"]
   | .addRewards _ => ["app rewards"]
   | .addPool c0 c1 _ _ => [s!"p {c0} {c1}"]
   | .createPool p => [s!"p {p.c0} {p.c1}"]
+  | .addStake cand owner coin _ => [s!"st {cand} {toHexPad owner 40} {coin}"]
+  | .newStake cand st => [s!"st {cand} {toHexPad st.owner 40} {st.coin}"]
+  | .delStake cand st => [s!"st {cand} {toHexPad st.owner 40} {st.coin}"]
+  | .pushUpdate cand _ =>
+    match getCand m cand with
+    | some cd => (List.range (cd.updates.length + 1)).map (fun i => s!"up {cand} {i}")
+    | none => []
+  | .addWait w => [s!"wl {w.cand} {toHexPad w.owner 40} {w.coin}"]
+  | .delWait w => [s!"wl {w.cand} {toHexPad w.owner 40} {w.coin}"]
+  | .addFrozen f => (List.range ((m.frozen.filter (fun x => x.height == f.height)).length + 1)).map (fun i => s!"ff {f.height} {i}")
+  | .delFrozen f => (List.range ((m.frozen.filter (fun x => x.height == f.height)).length + 2)).map (fun i => s!"ff {f.height} {i}")
+  | .addOrder o => [s!"o {o.id}"]
+  | .delOrder o => [s!"o {o.id}"]
+  | .fillOrder o _ _ => [s!"o {o.id}"]
+  | .useCheck h => [s!"uc {h}"]
+  | .setCoinOwner sym _ => (m.coins.filter (·.symbol == sym)).map (fun ci => s!"c {ci.id}")
+  | .bumpVersion c _ => [s!"c {c}"]
+  | .setLockStake a _ => [s!"ls {toHexPad a 40}"]
+  | .setMultisig a _ => [s!"ms {toHexPad a 40}"]
+  | .addCandidate cd => [s!"cand {cd.id}"]
+  | .setCandStatus id _ => [s!"cand {id}"]
+  | .setToDrop pk => [s!"v {toHexPad pk 64}"]
+  | .editCandidate id _ _ _ => [s!"cand {id}"]
+  | .setCandPubKey id old _ => [s!"cand {id}", s!"blk {toHexPad old 64}"]
+  | .setCandCommission id _ _ => [s!"cand {id}"]
+  | .addHalt h pk => [s!"h {h} {toHexPad pk 64}"]
+  | .addCVote h pk _ => [s!"cv {h} {toHexPad pk 64}"]
+  | .addUVote h pk _ => [s!"uv {h} {toHexPad pk 64}"]
+  | .setNextOrder _ => ["app nextorder"]
   | _ => []
 
-/-- Compare the model with the Go view on the live projection keys. -/
+/-- The node's value under a dump key, normalised to the form `State.valueAt` renders. -/
+def goValueAt (d : Dump) (k : String) : Option String :=
+  match d.get? k with
+  | none =>
+    match words k with
+    | ["app", "slashed"] | ["app", "rewards"] | ["app", "ncoins"] | ["app", "nextorder"] => some "0"
+    | _ => none
+  | some v =>
+    match (words k).headD "" with
+    | "st" => match words v with | [_, val, bip] => some s!"{val} {bip}" | _ => some v
+    | "v" => match words v with | [_, _, _, _, dr] => some dr | _ => none
+    | "wl" => some (toString ((v.splitOn "+").foldl (fun acc x => acc + intD x) 0))
+    | "b" => if v == "0" then none else some v
+    | "n" => if v == "0" then none else some v
+    | _ => some v
+
+/-- Compare the model with the Go view on the given dump keys (every key kind the transaction model can change). -/
 def projMismatch (m : State) (d : Dump) (keys : List String) : List String :=
   keys.eraseDups.filterMap (fun k =>
-    match words k with
-    | ["b", a, c] =>
-      let g := intD ((d.get? k).getD "0")
-      let v := balanceOf m (hexNat a) (natD c)
-      if g == v then none else some s!"{k} model={v} go={g}"
-    | ["n", a] =>
-      let g := natD ((d.get? k).getD "0")
-      let v := nonceOf m (hexNat a)
-      if g == v then none else some s!"{k} model={v} go={g}"
-    | ["c", id] =>
-      match d.get? k, getCoin m (natD id) with
-      | some gv, some ci =>
-        match words gv with
-        | [_, _, vol, res, _, _, _, _, _] =>
-          if intD vol == ci.volume && intD res == ci.reserve then none
-          else some s!"{k} model=vol:{ci.volume},res:{ci.reserve} go=vol:{vol},res:{res}"
-        | _ => none
-      | none, none => none
-      | some _, none => some s!"{k} model=absent go=present"
-      | none, some _ => some s!"{k} model=present go=absent"
-    | ["app", "slashed"] =>
-      let g := intD ((d.get? k).getD "0")
-      if g == m.slashed then none else some s!"{k} model={m.slashed} go={g}"
-    | ["app", "rewards"] =>
-      let g := intD ((d.get? k).getD "0")
-      if g == m.rewardsPool then none else some s!"{k} model={m.rewardsPool} go={g}"
-    | ["p", c0, c1] =>
-      match d.get? k, getPool m (natD c0) (natD c1) with
-      | some gv, some p =>
-        match words gv with
-        | [_, r0, r1] => if intD r0 == p.r0 && intD r1 == p.r1 then none else some s!"{k} model={p.r0},{p.r1} go={r0},{r1}"
-        | _ => none
-      | none, none => none
-      | some _, none => some s!"{k} model=absent go=present"
-      | none, some _ => some s!"{k} model=present go=absent"
-    | _ => none)
+    if !State.tracksKey k then none else
+    let g := goValueAt d k
+    let v := m.valueAt k
+    -- validator lines are only comparable in their live form; an absent `app nextorder` means "not yet used"
+    if (words k).headD "" == "v" && (g.isNone || v.isNone) then none
+    else if k == "app nextorder" && (g == some "0" || v == some "0") && (g == some "1" || v == some "1" || g == v) then none
+    else if g == v then none
+    else some s!"{k} model={v.getD "absent"} go={g.getD "absent"}")
 
-/-- Adopt Go's live projection (balances, nonces, coins, pools, slashed, fee pool) and keep the rest of the model. -/
-def mergeProjection (m : State) (d : Dump) : State :=
-  let g := State.ofDump d
-  { m with balances := g.balances, nonces := g.nonces, coins := g.coins, pools := g.pools, slashed := g.slashed,
-           rewardsPool := g.rewardsPool, ncoins := g.ncoins }
+/-- Adopt Go's view (the last export overlaid with the live projection): everything the transaction model reads is in it. -/
+def mergeProjection (_m : State) (d : Dump) : State := State.ofDump d
 
 def oqLine : OQ → String
   | .saleAmount v r c w => s!"saleAmount {v} {r} {c} {w}"
@@ -365,12 +372,13 @@ partial def loop (h : IO.FS.Stream) (out : IO.FS.Stream) (ds : DState) : IO Unit
         if haltExpected old ds.begin.signed ds.begin.height then
           out.putStrLn s!"VIOL C20 halt-vote-passed-but-node-continued height={ds.begin.height}"
       | none => pure ()
-      -- BeginBlock is modelled only as "fee pool := 0"; anything it changed on the live projection puts the model out of sync
+      -- BeginBlock is modelled only as "fee pool := 0"; anything else it changed is adopted from the live projection
+      -- (which carries every part of the state the transaction model reads)
       match ds.model with
       | some m =>
         if keys.all (fun k => k == "app rewards") then ds := { ds with model := some { m with rewardsPool := 0 } }
-        else ds := { ds with model := some (mergeProjection m d), staleOther := true }
-      | none => pure ()
+        else ds := { ds with model := some (mergeProjection m d), staleOther := false }
+      | none => ds := { ds with model := some (mergeProjection {} d), staleOther := false }
     else if kind == "tx" then
       match ds.lastTx with
       | some lt =>
@@ -383,10 +391,13 @@ partial def loop (h : IO.FS.Stream) (out : IO.FS.Stream) (ds : DState) : IO Unit
         if ds.pendingMerge then
           ds := { ds with model := some (mergeProjection m d), pendingMerge := false, touched := [] }
         else
-          for mm in projMismatch m d (keys ++ ds.touched) do
+          let mms := projMismatch m d (keys ++ ds.touched)
+          for mm in mms do
             out.putStrLn s!"MISMATCH state {mm}"
-          ds := { ds with touched := [] }
-      | none => pure ()
+          -- after a disagreement continue from the node's view, so that one defect is reported once
+          if mms.isEmpty then ds := { ds with touched := [] }
+          else ds := { ds with model := some (mergeProjection m d), touched := [] }
+      | none => ds := { ds with model := some (mergeProjection {} d), pendingMerge := false, touched := [] }
     out.putStrLn "."
     out.flush
     loop h out ds
@@ -427,36 +438,49 @@ partial def loop (h : IO.FS.Stream) (out : IO.FS.Stream) (ds : DState) : IO Unit
       if (k == 0) != (goCode == 0) && k != 113 && k != 114 && goCode != 999 then
         out.putStrLn s!"VIOL C06 checktx-delivertx-disagree check={k} deliver={goCode} type={kvGet a "typ"}"
     | none => pure ()
+    let lastK := ds.lastK
     let mut ds := { ds with nOps := ds.nOps + 1, lastK := none, lastTx := some { t := TxIn.ofKV a, code := goCode, kvs := a } }
     match ds.model with
     | none => ds := { ds with nStaleSkipped := ds.nStaleSkipped + 1 }
     | some m =>
       let t := TxIn.ofKV a
-      let (ds', r0) ← runDeliver h out ds m t 8
+      let (ds', r) ← runDeliver h out ds m t 12
       ds := ds'
-      let r := if ds.staleOther && readsOther t then Except.error (Stop.unmodelled "stale") else r0
       match r with
-      | .error (.unmodelled _) => ds := { ds with pendingMerge := true, staleOther := true, nUnmodelled := ds.nUnmodelled + 1 }
-      | .error (.need _) => ds := { ds with pendingMerge := true, staleOther := true, nUnmodelled := ds.nUnmodelled + 1 }
+      | .error (.unmodelled w) =>
+        out.putStrLn s!"INFO unmodelled why={w.replace " " "_"} type={t.typ} code={goCode}"
+        ds := { ds with pendingMerge := true, nUnmodelled := ds.nUnmodelled + 1 }
+      | .error (.need _) =>
+        out.putStrLn s!"INFO unmodelled why=oracle-loop type={t.typ} code={goCode}"
+        ds := { ds with pendingMerge := true, nUnmodelled := ds.nUnmodelled + 1 }
       | .error (.panic w) =>
-        if goCode != 999 then out.putStrLn s!"MISMATCH panic model-predicts-panic={w} go-code={goCode}"
-        ds := { ds with model := none }
+        if goCode != 999 then out.putStrLn s!"MISMATCH panic model-predicts-panic={w} go-code={goCode} type={t.typ}"
+        ds := { ds with pendingMerge := true, nModelled := ds.nModelled + 1 }
       | .ok o =>
         ds := { ds with nModelled := ds.nModelled + 1 }
+        out.putStrLn s!"INFO modelled type={t.typ} code={o.code}"
+        -- CheckTx (C06): the model's validation against the code the node's CheckTx answered on the same state
+        match lastK with
+        | some k =>
+          let orc : Oracle := fun q => ds.oracle.lookup q
+          match checkTx ds.params orc m ds.block t 1 false with
+          | .ok ck => if ck != k then out.putStrLn s!"MISMATCH checktx model={ck} go={k} type={t.typ}"
+          | .error _ => pure ()
+        | none => pure ()
         if o.code != goCode then
           out.putStrLn s!"MISMATCH code model={o.code} go={goCode} type={t.typ}"
-          ds := { ds with model := none }
+          ds := { ds with pendingMerge := true }
         else
           if !balancedB o.plan then out.putStrLn s!"FAULT unbalanced-plan type={t.typ} code={o.code}"
           match applyChecked m o.plan with
           | none =>
             out.putStrLn s!"FAULT plan-side-condition type={t.typ} code={o.code}"
-            ds := { ds with model := none }
+            ds := { ds with pendingMerge := true }
           | some m' =>
             for (k, v) in o.tags do
               let g := kvGet a k
               if g != "" && g != v then out.putStrLn s!"MISMATCH tag {k} model={v} go={g} type={t.typ}"
-            ds := { ds with model := some m', touched := o.plan.flatMap primKeys }
+            ds := { ds with model := some m', touched := o.plan.flatMap (primKeys m') }
     out.putStrLn "."
     out.flush
     loop h out ds
